@@ -19,7 +19,7 @@ func init() {
 		Title: "Directive text means the same however it is written; nothing is silently altered",
 		Explanation: "Decides the normalisation tables, error discipline and scanner guards of the configuration parser, not the round-trip law over the grammar: R1 case folding: directive names are lower-cased before the lookup and every key of the directive table is lower-case; the action and transformation registries apply the same fold when registering and when looking up; action keys are trimmed and folded, action values trimmed and then unquoted, in that order; " +
 			"R2 nothing silently altered: in the compile-time call graph (seclang, rule construction, action Init, operator factories) no error result is dropped outside a reasoned allowlist, an unknown ctl collection or variable name is an error, an unclosed quote in an action list is an error, the remainder handed back by a cutting scanner is never discarded, a number/enum parsed from directive or action text is applied or refused on every successful path (never only range-tested and dropped), and a ctl regex key is compiled as written (no case folding); " +
-			"R3 look-ahead reads of the scanners are length-guarded (A9 shapes); R4 scanner and parser state: the per-target flags of the target scanner (count, negation) are cleared after each target; the parser's position (file, directory, root, line) is copied into the shared directive options by evaluateLine before every directive call (a nested Include overwrites them); inside a regex key a backslash toggles the escape state (so an escaped backslash does not escape the closing slash), a continuation line is joined without being evaluated, comment and blank lines are skipped before anything else, and an open backtick block is an error. R2 also: a strings.Split result that is only indexed with constants has its length validated (otherwise text after the next separator is dropped).",
+			"R3 look-ahead reads of the scanners are length-guarded (A9 shapes); R4 scanner and parser state: the per-target flags of the target scanner (count, negation) are cleared after each target; the parser's position (file, directory, root, line) is copied into the shared directive options by evaluateLine before every directive call (a nested Include overwrites them); inside a regex key a backslash toggles the escape state (so an escaped backslash does not escape the closing slash), a continuation line is joined without being evaluated, comment and blank lines are skipped before anything else, and an open backtick block is an error. R2 also: a strings.Split result that is only indexed with constants has its length validated (otherwise text after the next separator is dropped). R4 also: the previous-byte-is-a-backslash test of the action scanner is made under the loop test only, and no Trim/TrimLeft/TrimRight of the configuration parser has a cut set of two or more marker characters (a cut set is not a prefix).",
 		NotDecided: []string{
 			"the round-trip law (render then parse) over the whole grammar and the equivalence of renderings",
 			"line assembly and target/action scanners beyond guards, error discipline and the listed state facts",
